@@ -181,7 +181,8 @@ class HeaderObject(BaseObject):
         return bytes(data)
 
     def parse(self, asf, data):
-        raise NotImplementedError
+        # a Header Object inside the header (or the header extension)
+        raise ASFHeaderError("nested header object")
 
     def render(self, asf):
         raise NotImplementedError
